@@ -4,12 +4,14 @@ CONSTANTS
   N = 3
   Byz <- NoByz
   Nodes <- Nodes3
-  Blk0 <- NoBlocks
+  Blk0s <- NoBlocks
   MaxBlocks = 14
   MaxRestarts = 2
   ByzMode = "branch"
   ByzRanges <- R123
+  Runs = FALSE
+  BadKinds <- OnlyOk
   Fixes <- AllFixes
-INVARIANTS TypeOK LibOnMain ConfirmsOnMain Agreement HonestConfirms
-PROPERTIES LibMonotone Final NoForkBelowLib LibQuorum RestoreEqualsRecompute
+INVARIANTS TypeOK LibOnMain ConfirmsOnMain ProposalsOnMain StatusBestIsBest Agreement HonestConfirms
+PROPERTIES LibMonotone Final NoForkBelowLib LibQuorum RestoreEqualsRecompute AfterAbandonedReorgStatusMatchesMainChain
 CHECK_DEADLOCK FALSE
